@@ -223,6 +223,101 @@ def oracle_results(ck, rng):
                          key={"site": "batch.landscape", "interleaved": True}, oracle="interleaved_batch_landscape")
 
 
+def oracle_task_arguments(ck, rng):
+    """the per-molecule arguments handed to the mapped function (quaternion, position) are those of the molecule whose
+    sub-volume is being processed -- recorded by a scripted alignment model, for single and (interleaved) batch loaders"""
+    from acryo import SubtomogramLoader, BatchLoader, Molecules
+    from props.C06 import make_stub
+    from scipy.spatial.transform import Rotation
+    Base = make_stub()
+    seen = []
+
+    class Recorder(Base):
+        def _optimize(self, subvolume, template, max_shifts, quaternion, pos, backend):
+            seen.append((int(round(float(np.asarray(subvolume).max()))), np.array(quaternion, dtype=float), np.array(pos, dtype=float)))
+            return np.zeros(3, dtype=np.float32), self._DUMMY_QUAT, 1.0
+
+        def _landscape(self, subvolume, template, max_shifts, quaternion, pos, backend):
+            seen.append((int(round(float(np.asarray(subvolume).max()))), np.array(quaternion, dtype=float), np.array(pos, dtype=float)))
+            return np.zeros((3, 3, 3), dtype=np.float32)
+
+    for it in range(4 if ck.tier == "quick" else 30):
+        nm = int(rng.integers(2, 7))
+        scale = float(rng.choice([1.0, 0.5, 2.0]))
+        kind = ["single", "batch"][it % 2]
+        rot = Rotation.random(nm, random_state=int(rng.integers(0, 2**31)))
+        # each molecule sits in its own constant block: the loaded value identifies the molecule
+        tomo = np.zeros((6, 6, 6 * nm), dtype=np.float32)
+        pos = []
+        for p in range(nm):
+            tomo[:, :, 6 * p:6 * (p + 1)] = p + 1
+            pos.append([2.5, 2.5, 6 * p + 2.5])
+        pos = np.array(pos) * scale
+        if kind == "single":
+            ld = SubtomogramLoader(tomo, Molecules(pos, rot), order=0, scale=scale, output_shape=(1, 1, 1))
+            order = list(range(nm))
+        else:
+            ld = BatchLoader(order=0, scale=scale, output_shape=(1, 1, 1))
+            half = nm // 2
+            ld.add_tomogram(tomo, Molecules(pos[:half], rot[:half], features={"k": list(range(half))}), image_id=1)
+            ld.add_tomogram(tomo, Molecules(pos[half:], rot[half:], features={"k": list(range(half, nm))}), image_id=0)
+            perm = [int(x) for x in rng.permutation(nm)]
+            ld = ld.replace(molecules=ld.molecules.subset(perm))
+            order = ld.molecules.features["k"].to_list()
+        tmpl = np.ones((1, 1, 1), dtype=np.float32)
+        quats = ld.molecules.quaternion()
+        for what in ("align", "landscape"):
+            seen.clear()
+            if what == "align":
+                ld.align(tmpl, max_shifts=1.0, alignment_model=Recorder)
+            else:
+                ld.construct_landscape(tmpl, max_shifts=1.0, alignment_model=Recorder).compute()
+            ck.oracle_count("task_arguments_follow_molecule", 1, 1)
+            bad = []
+            for val, q, pp in seen:
+                row = order.index(val - 1) if (val - 1) in order else None
+                if row is None or not (np.allclose(q, quats[row], atol=1e-6) or np.allclose(q, -quats[row], atol=1e-6)) \
+                        or not np.allclose(pp, ld.molecules.pos[row] / scale, atol=1e-4):
+                    bad.append(val - 1)
+            if bad or len(seen) != nm:
+                ck.violation(what=f"{kind} loader, {what}: the task of molecule(s) {sorted(set(bad))} received another molecule's quaternion/position "
+                                  f"({len(seen)} tasks for {nm} molecules)", inp={"kind": kind, "n": nm, "scale": scale, "operation": what},
+                             key={"site": "task-arguments", "kind": kind}, oracle="task_arguments_follow_molecule")
+
+
+def oracle_binning_rows(ck, rng):
+    """binning keeps every molecule with the tomogram it was registered with (numpy- and dask-backed tomograms in any order,
+    lazy or computed): each tomogram is a constant, so the loaded value names the tomogram"""
+    import dask.array as da
+    from acryo import BatchLoader, SubtomogramLoader, Molecules
+    plans = [["np", "da"], ["da", "np", "da"], ["np", "np", "da"], ["da", "da"], ["np", "da", "np"]]
+    for it, backing in enumerate(plans if ck.tier != "quick" else plans[:3]):
+        for compute in (True, False):
+            b = BatchLoader(order=1, scale=1.0, output_shape=(2, 2, 2))
+            ids = [int(x) for x in rng.permutation(7)[:len(backing)]]
+            want = {}
+            for j, (bk, iid) in enumerate(zip(backing, ids)):
+                t = np.full((12, 12, 12), float(10 * (iid + 1)), dtype=np.float32)
+                nm = int(rng.integers(1, 4))
+                b.add_tomogram(da.from_array(t, chunks=(6, 6, 6)) if bk == "da" else t,
+                               Molecules(rng.integers(3, 8, size=(nm, 3)).astype(float) + 0.5), image_id=iid)
+                want[iid] = 8.0 * 10 * (iid + 1)
+            binsize = 2
+            try:
+                lb = b.binning(binsize, compute=compute)
+                vals = lb.asnumpy().reshape(len(lb.molecules), -1).mean(axis=1)
+                iids = lb.molecules.features["image-id"].to_list()
+                bad = [i for i, (v, iid) in enumerate(zip(vals, iids)) if abs(v - want[int(iid)]) > 1e-3]
+                detail = f"rows {bad} were cut from another tomogram" if bad else ""
+            except Exception as e:  # noqa
+                bad, detail = [-1], f"raised {type(e).__name__}: {e}"
+            ck.oracle_count("binning_keeps_tomogram", 1, 1)
+            if bad:
+                ck.violation(what=f"BatchLoader.binning({binsize}, compute={compute}) with tomograms backed by {backing}: {detail}",
+                             inp={"backing": backing, "image_ids": ids, "compute": compute}, key={"site": "batch.binning", "compute": compute},
+                             oracle="binning_keeps_tomogram")
+
+
 def run(ck: common.Check):
     ck.design_ref = "DESIGN.md §6 C03"
     ck.trusted_base = TB
@@ -235,6 +330,8 @@ def run(ck: common.Check):
     rng = np.random.default_rng(ck.seed + 303)
     corr_histories(ck, rng)
     oracle_results(ck, rng)
+    oracle_task_arguments(ck, rng)
+    oracle_binning_rows(ck, rng)
 
 
 def replay(data):
